@@ -150,6 +150,18 @@ m("c07_pair_break_capture", "C07", r"C07\.PAIR:parser:capture-blocks-break", "br
   "tera/src/parsing/parser.rs", """                    if *ctx == BodyContext::Capture {
                         return Err(Error::syntax_error(""", """                    if *ctx == BodyContext::ComponentDefinition {
                         return Err(Error::syntax_error(""")
+m("c07_pair_scan_forward", "C07", r"C07\.PAIR:parser:capture-blocks-break", "break/continue scan walks the contexts outermost-first: for > capture > break is accepted",
+  "tera/src/parsing/parser.rs", "                for ctx in self.body_contexts.iter().rev() {\n                    if *ctx == BodyContext::ForLoop {",
+  "                for ctx in self.body_contexts.iter() {\n                    if *ctx == BodyContext::ForLoop {")
+m("c07_pair_flag_wrong_ctx", "C07", r"C07\.PAIR:(parser:Break-in-loop|anchor)", "the found-a-loop flag is set for any non-capture context",
+  "tera/src/parsing/parser.rs", "                    if *ctx == BodyContext::ForLoop {\n                        in_loop = true;",
+  "                    if *ctx != BodyContext::Capture {\n                        in_loop = true;")
+m("c06_report_sub_unguarded", "C06", r"R-PANIC\.report:reporting::SourceLocation::<'a>::new\|K4\|Sub usize", "underline width subtracts before testing: multi-line spans (end_col < start_col) overflow at add time",
+  "tera/src/reporting.rs", """        let width = if span.end_col > span.start_col {
+            span.end_col - span.start_col
+        } else {
+            1
+        };""", """        let width = (span.end_col - span.start_col).max(1);""")
 m("c07_pair_blocks_pop", "C07", r"C07\.PAIR:vm:blocks-push-pop", "block stack popped after the error check",
   "tera/src/vm/interpreter.rs", """                    state.current_block_name = old_block_name;
                     state.blocks.pop();
